@@ -424,6 +424,11 @@ def apply_rewrites(src, mask, it, ed, stats, spec_entry):
         if any(x <= lo + m.start() and lo + m.end() <= y + 1 for x, y in r4_ranges): continue
         ed.replace(lo + m.start(), lo + m.end(), 'crate::spec::f32_pi()')
         stats['R7_cast_f32'] = stats.get('R7_cast_f32', 0) + 1
+    for m in re.finditer(r'(?<![\w:])(?:(?:std|core)::)?f32::(MAX|MIN|INFINITY|NEG_INFINITY|EPSILON|NAN)\b', body):
+        if mask[lo + m.start()] != ord('c'): continue
+        if any(x <= lo + m.start() and lo + m.end() <= y + 1 for x, y in r4_ranges): continue
+        ed.replace(lo + m.start(), lo + m.end(), 'crate::spec::f32_%s()' % {'MAX': 'max_value', 'MIN': 'min_value', 'INFINITY': 'infinity', 'NEG_INFINITY': 'neg_infinity', 'EPSILON': 'epsilon', 'NAN': 'nan'}[m.group(1)])
+        stats['R7_cast_f32'] = stats.get('R7_cast_f32', 0) + 1
     # R5b: `for &x in E { B }` => `for x in E { let x = *x; B }` (reference pattern on a Copy element)
     for L in loops:
         if L['kind'] != 'for': continue
@@ -504,6 +509,148 @@ def first_param(src, it):
     return m.group(1) if m else None
 
 
+def split_args(src, mask, lo, hi):
+    """top-level comma split of src[lo:hi] (code mask aware); returns list of stripped argument texts, or None if unbalanced"""
+    args = []; d = 0; a = lo
+    for i in range(lo, hi):
+        if mask[i] != ord('c'): continue
+        ch = src[i]
+        if ch in '([{': d += 1
+        elif ch in ')]}':
+            d -= 1
+            if d < 0: return None
+        elif ch == ',' and d == 0:
+            args.append(src[a:i].strip()); a = i + 1
+    if d != 0: return None
+    last = src[a:hi].strip()
+    if last or args: args.append(last)
+    if args and args[-1] == '': args.pop()      # trailing comma
+    return args
+
+
+def one_line(src, mask, lo, hi):
+    """src[lo:hi] with comments removed and newlines collapsed (string literals kept)"""
+    out = []; i = lo
+    while i < hi:
+        if mask[i] != ord('c') and src.startswith('//', i):
+            j = src.find('\n', i)
+            i = hi if j < 0 or j > hi else j
+            out.append(' '); continue
+        if mask[i] != ord('c') and src.startswith('/*', i):
+            j = src.find('*/', i + 2)
+            i = hi if j < 0 or j + 2 > hi else j + 2
+            out.append(' '); continue
+        out.append(src[i]); i += 1
+    return re.sub(r'\s+', ' ', ''.join(out)).strip()
+
+
+def r8_inline_new_helpers(srcs, known_units, stats):
+    """R8: a free function the specification has never seen (absent from spec/known_units.txt) that is pure and straight-line
+    (no `&mut` parameter, no generics, no return / ? / loop / unsafe / closure, not recursive) and is only ever *called*, from
+    its own module, is inlined at every call site as `({ let (p1, p2): (T1, T2) = (arg1, arg2); BODY })` -- the block a call
+    evaluates to -- so that the callers are verified against what the helper does instead of against a contract it does not
+    have.  The replacement stays on the call's line (line numbers are preserved).  Returns (new srcs, {path: n_sites})."""
+    done = {}
+    defs = {}
+    masks = {m: rsitems.scan_tokens(t) for m, t in srcs.items()}
+    allitems = {m: rsitems.items(srcs[m], mask=masks[m]) for m in srcs}
+    name_count = {}
+    def walk(its):
+        for it in its:
+            if it['kind'] == 'fn': name_count[it['name']] = name_count.get(it['name'], 0) + 1
+            if it.get('children') and not (it['kind'] == 'mod'): walk(it['children'])
+    for m in srcs: walk(allitems[m])
+    for m in srcs:
+        src = srcs[m]; mask = masks[m]
+        for it in allitems[m]:
+            if it['kind'] != 'fn' or it.get('parent') is not None or it['body_start'] is None: continue
+            path = '%s::%s' % (m, it['name'])
+            if path in known_units or name_count.get(it['name'], 0) != 1: continue
+            sig = src[it['kw']:it['body_start']]
+            mm = re.match(r'(?:pub(?:\([a-z]+\))?\s+)?fn\s+(\w+)\s*\(', sig)
+            if not mm: continue
+            po = it['kw'] + mm.end(); d = 1; pc = po
+            while pc < it['body_start'] and d:
+                if mask[pc] == ord('c'):
+                    if src[pc] == '(': d += 1
+                    elif src[pc] == ')': d -= 1
+                pc += 1
+            params = split_args(src, mask, po, pc - 1)
+            if params is None: continue
+            ps = []
+            ok = True
+            for p in params:
+                pm = re.match(r'^([a-z_][A-Za-z0-9_]*)\s*:\s*(.+)$', p, re.S)
+                if not pm or re.search(r'&\s*(\'\w+\s+)?mut\b', pm.group(2)) or 'impl ' in pm.group(2) or 'dyn ' in pm.group(2): ok = False; break
+                ps.append((pm.group(1), one_line(pm.group(2), rsitems.scan_tokens(pm.group(2)), 0, len(pm.group(2)))))
+            rest = src[pc:it['body_start']]
+            if not ok or 'where' in rest or 'impl ' in rest: continue
+            body_lo, body_hi = it['body_start'] + 1, it['end'] - 1
+            code = ''.join(src[i] if mask[i] == ord('c') else ' ' for i in range(body_lo, body_hi))
+            if re.search(r'\b(return|loop|while|for|unsafe|move|async|await|break|continue)\b|\?|\|', code): continue
+            if re.search(r'\b%s\b' % re.escape(it['name']), code): continue
+            defs[it['name']] = dict(mod=m, path=path, params=ps, body=one_line(src, mask, body_lo, body_hi), it=it)
+    out = dict(srcs)
+    for name, d in defs.items():
+        # every occurrence of the name outside #[cfg(test)] modules must be the definition or a plain call in the helper's module
+        sites = []; good = True
+        for m in srcs:
+            src = srcs[m]; mask = masks[m]
+            test_spans = [(x['start'], x['end']) for x in allitems[m] if x['kind'] == 'mod' and is_cfg_test(src, x)]
+            for x in re.finditer(r'\b%s\b' % re.escape(name), src):
+                a = x.start()
+                if mask[a] != ord('c') or any(lo <= a < hi for lo, hi in test_spans): continue
+                if m == d['mod'] and d['it']['kw'] <= a < d['it']['body_start']: continue
+                mc = re.match(r'\s*\(', src[x.end():])
+                if m != d['mod'] or not mc or (a > 0 and (src[a - 1] in '.:' or src[a - 1].isalnum())):
+                    good = False; break
+                po = x.end() + mc.end(); dd = 1; pc = po
+                while pc < len(src) and dd:
+                    if mask[pc] == ord('c'):
+                        if src[pc] in '([{': dd += 1
+                        elif src[pc] in ')]}': dd -= 1
+                    pc += 1
+                args = split_args(src, mask, po, pc - 1)
+                if args is None or len(args) != len(d['params']):
+                    good = False; break
+                sites.append((a, pc, [one_line(src, mask, *_span(src, po, pc - 1, k, mask)) for k in range(len(args))]))
+            if not good: break
+        if not good or not sites: continue
+        # nested call sites (a call inside the arguments of another call of the same helper) are not handled
+        sites.sort()
+        if any(sites[i][1] > sites[i + 1][0] for i in range(len(sites) - 1)): continue
+        src = out[d['mod']]
+        if src is not srcs[d['mod']]:
+            continue    # one helper per module per run keeps the offsets simple; further helpers stay under the new-function policy
+        pieces = []; pos = 0
+        for a, b, args in sites:
+            names = ', '.join(p for p, _ in d['params']); types = ', '.join(t for _, t in d['params'])
+            if len(d['params']) == 0: bind = ''
+            elif len(d['params']) == 1: bind = 'let %s: %s = %s; ' % (names, types, args[0])
+            else: bind = 'let (%s): (%s) = (%s); ' % (names, types, ', '.join(args))
+            nl = src.count('\n', a, b)
+            pieces.append(src[pos:a]); pieces.append('({ %s%s })' % (bind, d['body']) + '\n' * nl); pos = b
+        pieces.append(src[pos:])
+        out[d['mod']] = ''.join(pieces)
+        done[d['path']] = len(sites)
+        stats['R8_inline_new_helper'] = stats.get('R8_inline_new_helper', 0) + len(sites)
+    return out, done
+
+
+def _span(src, lo, hi, k, mask):
+    """(start, end) of the k-th top-level argument in src[lo:hi]"""
+    d = 0; a = lo; n = 0
+    for i in range(lo, hi):
+        if mask[i] != ord('c'): continue
+        ch = src[i]
+        if ch in '([{': d += 1
+        elif ch in ')]}': d -= 1
+        elif ch == ',' and d == 0:
+            if n == k: return (a, i)
+            n += 1; a = i + 1
+    return (a, hi)
+
+
 def assemble(repo, spec, rows=None, canary=None, opts=None):
     """Build the Verus crate text. Returns dict(text, units, linemap(list of (mod, srcline)|None), stats, registry)."""
     opts = opts or {}
@@ -511,6 +658,11 @@ def assemble(repo, spec, rows=None, canary=None, opts=None):
     reg = registry(srcs)
     ROWS = getattr(rows, 'ROWS', {}) if rows else {}
     stats = {k: 0 for k in REWRITE_STATS_KEYS}
+    r8_done = {}
+    if opts.get('known_units'):
+        srcs, r8_done = r8_inline_new_helpers(srcs, opts['known_units'], stats)
+        for pth, n in r8_done.items():
+            spec.external[pth] = 'R8: new helper without a contract; pure and straight-line, so its body is verified inlined at its %d call site(s) instead' % n
     stats.update(external_derive=0, external_body=0, external=0, dropped_use=0, dropped_test_mod=0,
                  fns_total=0, fns_verified=0, fns_trusted=0, fns_external=0, ret_named=0, instruction_copies=0)
     out = []; linemap = []; units = []
